@@ -10,8 +10,13 @@
 // Blob *shapes* (number of parameters, value lengths) are concrete or small-range, ids are chosen
 // from a small table, value bytes are symbolic.
 //
-// The harnesses named `*_any` are registered `pending`: they expose the pre-authentication remote
-// panics of the parser (DESIGN.md §6 #1-#3); their `*_wf` twins assume the trigger away and pass.
+// Malformed VALUES: the whole function costs minutes per symbolic parameter, so the per-value
+// decoding is decided piecewise on the real pieces (be_parameter_value + handle_nom_error + the
+// `assert!(remain.is_empty())` glue of io.rs:173-175, mirrored by `glue()`), and each suspected
+// pre-authentication remote panic (DESIGN.md §6 #1-#3) additionally has a CONCRETE witness through
+// the real `parse_from_bytes` (`c18_parse_witness_*`, no symbolic input: replayed natively as is).
+// `*_any` and `*_witness_*` harnesses are registered `pending`; the `*_wf` twins assume the trigger
+// away and pass.
 use super::*;
 use crate::{
     error::ErrorKind,
@@ -230,238 +235,244 @@ fn c18_parse_required_server() {
 }
 
 // ---------------------------------------------------------------------------------------------
-// malformed values through parse_from_bytes: error, never a panic
+// malformed values: a transport-parameter error, never a panic
 
-const N_CID: usize = 22;
+/// Mirrors io.rs:173-175, the only lines between the framing of a parameter and `set`:
+///     let (remain, v) = be_parameter_value(value, id).map_err(|e| handle_nom_error(value, e))?;
+///     assert!(remain.is_empty(), "Parameter value should consume all data");
+/// followed by the conversion every `?` in parse_from_bytes applies (param::Error -> QuicError).
+fn glue(value: &[u8], id: ParameterId) -> Result<ParameterValue, QuicError> {
+    let (remain, v) = be_parameter_value(value, id)
+        .map_err(|nom_error| QuicError::from(handle_nom_error(value, nom_error)))?;
+    assert!(remain.is_empty(), "Parameter value should consume all data (io.rs:175)");
+    Ok(v)
+}
 
-/// One connection-id typed parameter `0f <len> <len bytes>`, len 0..=22, as the only parameter of
-/// a client's set.
-fn parse_cid(exclude_trigger: bool) {
-    let mut arr: [u8; 2 + N_CID] = kani::any();
+/// RFC 9000 §16 varint of a value slice, written independently: (value, encoded length).
+fn spec_varint(b: &[u8]) -> Option<(u64, usize)> {
+    if b.is_empty() {
+        return None;
+    }
+    let k = 1usize << (b[0] >> 6);
+    if b.len() < k {
+        return None;
+    }
+    let mut v = (b[0] & 0x3f) as u64;
+    let mut i = 1;
+    while i < k {
+        v = (v << 8) | b[i] as u64;
+        i += 1;
+    }
+    Some((v, k))
+}
+
+/// A varint-typed parameter (initial_max_data as representative: be_parameter_value only reads
+/// id.value_type()) with a value of 0..=N bytes.
+fn value_varint<const N: usize>(exclude_trigger: bool) {
+    let arr: [u8; N] = kani::any();
     let len: usize = kani::any();
-    kani::assume(len <= N_CID);
+    kani::assume(len <= N);
+    let value = &arr[..len];
+    let spec = spec_varint(value);
+    if exclude_trigger {
+        // trigger of defect #2: declared length larger than the varint's own encoding
+        kani::assume(len == 0 || len <= (1usize << (arr[0] >> 6)));
+    }
+    kani::cover!(len == N - 1 && spec.is_some(), "8-byte value decoded");
+    kani::cover!(len == 2 && spec.is_some(), "2-byte value decoded");
+    match glue(value, ParameterId::InitialMaxData) {
+        Ok(ParameterValue::VarInt(v)) => assert!(spec == Some((v.into_u64(), len)), "decoded value == RFC 9000 varint, value fills its length"),
+        Ok(_) => assert!(false, "numeric id decoded to a non-numeric value"),
+        Err(e) => {
+            kani::cover!(len == 0, "empty value is an error, not a panic");
+            assert!(spec.is_none(), "only a truncated value is refused");
+            assert!(e.kind() == ErrorKind::TransportParameter);
+            core::mem::forget(e);
+        }
+    }
+}
+
+/// C18 (pending, defect #2): a VarInt-typed parameter with ANY value of <= 9 bytes is decoded or
+/// rejected with TRANSPORT_PARAMETER_ERROR. Fails: surplus bytes hit `assert!(remain.is_empty())`
+/// (smallest failing value: `00 00`, i.e. the blob `04 02 00 00`).
+#[kani::proof]
+#[kani::unwind(10)]
+#[kani::stub(core::fmt::write, c18_stub_fmt_write)]
+#[kani::stub(alloc::fmt::format, c18_stub_fmt_format)]
+#[kani::stub(core::slice::index::slice_index_fail, c18_stub_slice_index_fail)]
+fn c18_value_varint_any() {
+    value_varint::<9>(false);
+}
+
+/// Twin: value no longer than its own varint encoding.
+#[kani::proof]
+#[kani::unwind(10)]
+#[kani::stub(core::fmt::write, c18_stub_fmt_write)]
+#[kani::stub(alloc::fmt::format, c18_stub_fmt_format)]
+#[kani::stub(core::slice::index::slice_index_fail, c18_stub_slice_index_fail)]
+fn c18_value_varint_wf() {
+    value_varint::<9>(true);
+}
+
+fn value_flag(exclude_trigger: bool) {
+    let arr: [u8; 2] = kani::any();
+    let len: usize = kani::any();
+    kani::assume(len <= 2);
+    if exclude_trigger {
+        kani::assume(len == 0);
+    }
+    let r = glue(&arr[..len], ParameterId::DisableActiveMigration);
+    kani::cover!(len == 0, "empty flag");
+    match &r {
+        Ok(v) => assert!(matches!(v, ParameterValue::True) && len == 0, "only the empty value is a flag"),
+        Err(e) => assert!(len > 0 && e.kind() == ErrorKind::TransportParameter),
+    }
+    core::mem::forget(r);
+}
+
+/// C18 (pending, defect #2): a flag parameter (disable_active_migration, grease_quic_bit) with a
+/// non-empty value is rejected with TRANSPORT_PARAMETER_ERROR. Fails at io.rs:175 (smallest
+/// failing value: one arbitrary byte, i.e. the blob `0c 01 00`).
+#[kani::proof]
+#[kani::unwind(4)]
+#[kani::stub(core::fmt::write, c18_stub_fmt_write)]
+#[kani::stub(alloc::fmt::format, c18_stub_fmt_format)]
+#[kani::stub(core::slice::index::slice_index_fail, c18_stub_slice_index_fail)]
+fn c18_value_flag_any() {
+    value_flag(false);
+}
+
+#[kani::proof]
+#[kani::unwind(4)]
+#[kani::stub(core::fmt::write, c18_stub_fmt_write)]
+#[kani::stub(alloc::fmt::format, c18_stub_fmt_format)]
+#[kani::stub(core::slice::index::slice_index_fail, c18_stub_slice_index_fail)]
+fn c18_value_flag_wf() {
+    value_flag(true);
+}
+
+fn value_cid<const N: usize>(exclude_trigger: bool) {
+    let arr: [u8; N] = kani::any();
+    let len: usize = kani::any();
+    kani::assume(len <= N);
     if exclude_trigger {
         kani::assume(len <= 20);
     }
-    arr[0] = 0x0f;
-    arr[1] = len as u8;
-    let r = ClientParameters::parse_from_bytes(&arr[..2 + len]);
-    kani::cover!(len == 20, "20-byte connection id");
-    kani::cover!(len == 0, "zero-length connection id");
-    match &r {
-        Ok(p) => {
+    match glue(&arr[..len], ParameterId::InitialSourceConnectionId) {
+        Ok(ParameterValue::ConnectionId(cid)) => {
+            kani::cover!(len == 20, "20-byte connection id");
+            kani::cover!(len == 0, "zero-length connection id");
             assert!(len <= 20, "a connection id longer than 20 bytes is never accepted");
-            match p.get::<ConnectionId>(ParameterId::InitialSourceConnectionId) {
-                Some(c) => {
-                    assert!(c.len as usize == len);
-                    let j: usize = kani::any();
-                    kani::assume(j < 20 && j < len);
-                    assert!(c.bytes[j] == arr[2 + j], "the declared cid is exactly the bytes on the wire");
-                }
-                None => assert!(false),
-            }
+            assert!(cid.len as usize == len);
+            let j: usize = kani::any();
+            kani::assume(j < 20 && j < len);
+            assert!(cid.bytes[j] == arr[j], "the declared cid is exactly the bytes on the wire");
         }
+        Ok(_) => assert!(false),
         Err(e) => {
-            assert!(len > 20, "a well-formed cid parameter is accepted");
+            assert!(len > 20, "a connection id of <= 20 bytes always decodes");
             assert!(e.kind() == ErrorKind::TransportParameter);
+            core::mem::forget(e);
         }
     }
-    core::mem::forget(r);
 }
 
-/// C18 (pending, defect #1): initial_source_connection_id with ANY value of <= 22 bytes is decoded
-/// or rejected with TRANSPORT_PARAMETER_ERROR. Fails: 21+ bytes panic in ConnectionId::from_slice
-/// (debug_assert / slice index 21 > 20). Failing blob: 0f 15 followed by 21 arbitrary bytes.
+/// C18 (pending, defect #1): a ConnectionId-typed parameter (original_destination_/initial_source_/
+/// retry_source_connection_id) with ANY value of <= 22 bytes is decoded or rejected with
+/// TRANSPORT_PARAMETER_ERROR. Fails: 21+ bytes panic in ConnectionId::from_slice (debug_assert in
+/// debug builds, slice index 21 > 20 in release builds). Blob: `0f 15` + 21 arbitrary bytes.
 #[kani::proof]
 #[kani::unwind(24)]
-#[kani::stub(crate::varint::be_varint, c18_model_be_varint)]
 #[kani::stub(core::fmt::write, c18_stub_fmt_write)]
 #[kani::stub(alloc::fmt::format, c18_stub_fmt_format)]
 #[kani::stub(core::slice::index::slice_index_fail, c18_stub_slice_index_fail)]
-#[kani::stub(tracing::callsite::DefaultCallsite::interest, c18_stub_tr_interest)]
-#[kani::stub(tracing::__macro_support::__is_enabled, c18_stub_tr_enabled)]
-#[kani::stub(tracing::Event::dispatch, c18_stub_tr_dispatch)]
-fn c18_parse_cid_any() {
-    parse_cid(false);
+fn c18_value_cid_any() {
+    value_cid::<22>(false);
 }
 
-/// Twin: value of <= 20 bytes: accepted, declared cid == wire bytes.
 #[kani::proof]
 #[kani::unwind(24)]
-#[kani::stub(crate::varint::be_varint, c18_model_be_varint)]
 #[kani::stub(core::fmt::write, c18_stub_fmt_write)]
 #[kani::stub(alloc::fmt::format, c18_stub_fmt_format)]
 #[kani::stub(core::slice::index::slice_index_fail, c18_stub_slice_index_fail)]
-#[kani::stub(tracing::callsite::DefaultCallsite::interest, c18_stub_tr_interest)]
-#[kani::stub(tracing::__macro_support::__is_enabled, c18_stub_tr_enabled)]
-#[kani::stub(tracing::Event::dispatch, c18_stub_tr_dispatch)]
-fn c18_parse_cid_wf() {
-    parse_cid(true);
+fn c18_value_cid_wf() {
+    value_cid::<22>(true);
 }
 
-/// `0f 01 c` (mandatory id, so that acceptance is possible) followed by ONE numeric or flag
-/// parameter `<id> <len> <len bytes>`, len 0..=3.
-///   id 0x04 initial_max_data (varint), 0x01 max_idle_timeout (duration), 0x0c disable_active_migration (flag)
-fn parse_scalar<const ID: u8>(exclude_trigger: bool) {
-    let mut arr: [u8; 8] = kani::any();
+fn value_token<const N: usize>(exclude_trigger: bool) {
+    let arr: [u8; N] = kani::any();
     let len: usize = kani::any();
-    kani::assume(len <= 3);
-    arr[0] = 0x0f;
-    arr[1] = 1;
-    arr[3] = ID;
-    arr[4] = len as u8;
-    let is_flag = ID == 0x0c;
-    // number of bytes the value's own varint encoding announces
-    let own = 1usize << (arr[5] >> 6);
-    let surplus = if is_flag { len > 0 } else { len > 0 && len > own };
-    let truncated = !is_flag && (len == 0 || len < own);
-    if exclude_trigger {
-        kani::assume(!surplus);
-    }
-    let r = ClientParameters::parse_from_bytes(&arr[..5 + len]);
-    kani::cover!(!truncated && !surplus, "well-formed value");
-    kani::cover!(truncated, "truncated value");
-    match &r {
-        Ok(p) => {
-            assert!(!truncated && !surplus, "only a value that fills its declared length exactly is accepted");
-            if is_flag {
-                assert!(p.get::<bool>(ParameterId::DisableActiveMigration) == Some(true));
-            } else {
-                let v: u64 = if own == 1 {
-                    (arr[5] & 0x3f) as u64
-                } else {
-                    (((arr[5] & 0x3f) as u64) << 8) | arr[6] as u64
-                };
-                if ID == 0x04 {
-                    assert!(p.get::<u64>(ParameterId::InitialMaxData) == Some(v));
-                } else {
-                    assert!(p.get::<Duration>(ParameterId::MaxIdleTimeout) == Some(Duration::from_millis(v)));
-                }
-            }
-        }
-        Err(e) => {
-            assert!(truncated || surplus, "a well-formed value is accepted");
-            assert!(e.kind() == ErrorKind::TransportParameter);
-        }
-    }
-    core::mem::forget(r);
-}
-
-/// C18 (pending, defect #2): a varint-typed parameter whose declared length exceeds the varint's
-/// own encoding is rejected with TRANSPORT_PARAMETER_ERROR. Fails at io.rs:175
-/// `assert!(remain.is_empty())`. Failing blob: 0f 01 00 04 02 00 00 (initial_max_data, length 2, value 00 00).
-#[kani::proof]
-#[kani::unwind(10)]
-#[kani::stub(crate::varint::be_varint, c18_model_be_varint)]
-#[kani::stub(core::fmt::write, c18_stub_fmt_write)]
-#[kani::stub(alloc::fmt::format, c18_stub_fmt_format)]
-#[kani::stub(core::slice::index::slice_index_fail, c18_stub_slice_index_fail)]
-#[kani::stub(tracing::callsite::DefaultCallsite::interest, c18_stub_tr_interest)]
-#[kani::stub(tracing::__macro_support::__is_enabled, c18_stub_tr_enabled)]
-#[kani::stub(tracing::Event::dispatch, c18_stub_tr_dispatch)]
-fn c18_parse_varint_any() {
-    parse_scalar::<0x04>(false);
-}
-
-#[kani::proof]
-#[kani::unwind(10)]
-#[kani::stub(crate::varint::be_varint, c18_model_be_varint)]
-#[kani::stub(core::fmt::write, c18_stub_fmt_write)]
-#[kani::stub(alloc::fmt::format, c18_stub_fmt_format)]
-#[kani::stub(core::slice::index::slice_index_fail, c18_stub_slice_index_fail)]
-#[kani::stub(tracing::callsite::DefaultCallsite::interest, c18_stub_tr_interest)]
-#[kani::stub(tracing::__macro_support::__is_enabled, c18_stub_tr_enabled)]
-#[kani::stub(tracing::Event::dispatch, c18_stub_tr_dispatch)]
-fn c18_parse_varint_wf() {
-    parse_scalar::<0x04>(true);
-}
-
-/// Same for a Duration-typed parameter (max_idle_timeout), twin only.
-#[kani::proof]
-#[kani::unwind(10)]
-#[kani::stub(crate::varint::be_varint, c18_model_be_varint)]
-#[kani::stub(core::fmt::write, c18_stub_fmt_write)]
-#[kani::stub(alloc::fmt::format, c18_stub_fmt_format)]
-#[kani::stub(core::slice::index::slice_index_fail, c18_stub_slice_index_fail)]
-#[kani::stub(tracing::callsite::DefaultCallsite::interest, c18_stub_tr_interest)]
-#[kani::stub(tracing::__macro_support::__is_enabled, c18_stub_tr_enabled)]
-#[kani::stub(tracing::Event::dispatch, c18_stub_tr_dispatch)]
-fn c18_parse_duration_wf() {
-    parse_scalar::<0x01>(true);
-}
-
-/// C18 (pending, defect #2): a flag parameter with a non-empty value is rejected with
-/// TRANSPORT_PARAMETER_ERROR. Fails at io.rs:175. Failing blob: 0f 01 00 0c 01 00.
-#[kani::proof]
-#[kani::unwind(10)]
-#[kani::stub(crate::varint::be_varint, c18_model_be_varint)]
-#[kani::stub(core::fmt::write, c18_stub_fmt_write)]
-#[kani::stub(alloc::fmt::format, c18_stub_fmt_format)]
-#[kani::stub(core::slice::index::slice_index_fail, c18_stub_slice_index_fail)]
-#[kani::stub(tracing::callsite::DefaultCallsite::interest, c18_stub_tr_interest)]
-#[kani::stub(tracing::__macro_support::__is_enabled, c18_stub_tr_enabled)]
-#[kani::stub(tracing::Event::dispatch, c18_stub_tr_dispatch)]
-fn c18_parse_flag_any() {
-    parse_scalar::<0x0c>(false);
-}
-
-#[kani::proof]
-#[kani::unwind(10)]
-#[kani::stub(crate::varint::be_varint, c18_model_be_varint)]
-#[kani::stub(core::fmt::write, c18_stub_fmt_write)]
-#[kani::stub(alloc::fmt::format, c18_stub_fmt_format)]
-#[kani::stub(core::slice::index::slice_index_fail, c18_stub_slice_index_fail)]
-#[kani::stub(tracing::callsite::DefaultCallsite::interest, c18_stub_tr_interest)]
-#[kani::stub(tracing::__macro_support::__is_enabled, c18_stub_tr_enabled)]
-#[kani::stub(tracing::Event::dispatch, c18_stub_tr_dispatch)]
-fn c18_parse_flag_wf() {
-    parse_scalar::<0x0c>(true);
-}
-
-const N_TOK: usize = 17;
-
-/// A server's set `0f 01 c  00 01 d  02 <len> <len bytes>` (stateless_reset_token), len 0..=17.
-fn parse_token(exclude_trigger: bool) {
-    let mut arr: [u8; 8 + N_TOK] = kani::any();
-    let len: usize = kani::any();
-    kani::assume(len <= N_TOK);
+    kani::assume(len <= N);
     if exclude_trigger {
         kani::assume(len == 16);
     }
-    arr[0] = 0x0f;
-    arr[1] = 1;
-    arr[3] = 0x00;
-    arr[4] = 1;
-    arr[6] = 0x02;
-    arr[7] = len as u8;
-    let r = ServerParameters::parse_from_bytes(&arr[..8 + len]);
-    kani::cover!(len == 16, "16-byte token");
-    match &r {
-        Ok(p) => {
+    match glue(&arr[..len], ParameterId::StatelessResetToken) {
+        Ok(ParameterValue::ResetToken(t)) => {
+            kani::cover!(true, "16-byte token");
             assert!(len == 16, "only a 16-byte stateless reset token is accepted");
-            match p.get::<ResetToken>(ParameterId::StatelessResetToken) {
-                Some(t) => {
-                    let j: usize = kani::any();
-                    kani::assume(j < 16);
-                    assert!(t[j] == arr[8 + j]);
-                }
-                None => assert!(false),
-            }
+            let j: usize = kani::any();
+            kani::assume(j < 16);
+            assert!(t[j] == arr[j]);
         }
+        Ok(_) => assert!(false),
         Err(e) => {
             assert!(len != 16);
             assert!(e.kind() == ErrorKind::TransportParameter);
+            core::mem::forget(e);
         }
     }
+}
+
+/// C18 (pending, defect #3): stateless_reset_token with ANY value of <= 17 bytes is decoded or
+/// rejected with TRANSPORT_PARAMETER_ERROR. Fails: < 16 bytes -> be_reset_token (nom *complete*
+/// take) returns Err::Error and handle_nom_error asserts "Only incomplete errors should occur";
+/// 17 bytes -> io.rs:175. Smallest failing blob: `02 00` (empty token).
+#[kani::proof]
+#[kani::unwind(19)]
+#[kani::stub(core::fmt::write, c18_stub_fmt_write)]
+#[kani::stub(alloc::fmt::format, c18_stub_fmt_format)]
+#[kani::stub(core::slice::index::slice_index_fail, c18_stub_slice_index_fail)]
+fn c18_value_token_any() {
+    value_token::<17>(false);
+}
+
+#[kani::proof]
+#[kani::unwind(19)]
+#[kani::stub(core::fmt::write, c18_stub_fmt_write)]
+#[kani::stub(alloc::fmt::format, c18_stub_fmt_format)]
+#[kani::stub(core::slice::index::slice_index_fail, c18_stub_slice_index_fail)]
+fn c18_value_token_wf() {
+    value_token::<17>(true);
+}
+
+// ---------------------------------------------------------------------------------------------
+// concrete witnesses of the three panics through the public entry point (tier pending)
+
+/// Defect #1. Client's TLS extension = `0f 15 00*21` (initial_source_connection_id of 21 bytes),
+/// parsed by a server: must be refused with an error; instead ConnectionId::from_slice panics.
+#[kani::proof]
+#[kani::unwind(24)]
+#[kani::stub(crate::varint::be_varint, c18_model_be_varint)]
+#[kani::stub(core::fmt::write, c18_stub_fmt_write)]
+#[kani::stub(alloc::fmt::format, c18_stub_fmt_format)]
+#[kani::stub(core::slice::index::slice_index_fail, c18_stub_slice_index_fail)]
+#[kani::stub(tracing::callsite::DefaultCallsite::interest, c18_stub_tr_interest)]
+#[kani::stub(tracing::__macro_support::__is_enabled, c18_stub_tr_enabled)]
+#[kani::stub(tracing::Event::dispatch, c18_stub_tr_dispatch)]
+fn c18_parse_witness_cid_21_bytes() {
+    let mut blob = [0u8; 23];
+    blob[0] = 0x0f;
+    blob[1] = 21;
+    let r = ClientParameters::parse_from_bytes(&blob[..]);
+    kani::cover!(true, "parse returned");
+    assert!(r.is_err(), "a 21-byte connection id is a TRANSPORT_PARAMETER_ERROR");
     core::mem::forget(r);
 }
 
-/// C18 (pending, defect #3): stateless_reset_token with any value of <= 17 bytes is decoded or
-/// rejected with TRANSPORT_PARAMETER_ERROR. Fails: < 16 bytes -> be_reset_token (nom *complete*
-/// take) returns Err::Error and handle_nom_error asserts "Only incomplete errors should occur";
-/// 17 bytes -> io.rs:175. Failing blob: 0f 01 00 00 01 00 02 00 (empty token).
+/// Defect #2. Client's TLS extension = `04 02 00 00` (initial_max_data, declared length 2, value
+/// is the 1-byte varint 0 followed by a surplus byte): io.rs:175 `assert!(remain.is_empty())`.
 #[kani::proof]
-#[kani::unwind(19)]
+#[kani::unwind(6)]
 #[kani::stub(crate::varint::be_varint, c18_model_be_varint)]
 #[kani::stub(core::fmt::write, c18_stub_fmt_write)]
 #[kani::stub(alloc::fmt::format, c18_stub_fmt_format)]
@@ -469,12 +480,17 @@ fn parse_token(exclude_trigger: bool) {
 #[kani::stub(tracing::callsite::DefaultCallsite::interest, c18_stub_tr_interest)]
 #[kani::stub(tracing::__macro_support::__is_enabled, c18_stub_tr_enabled)]
 #[kani::stub(tracing::Event::dispatch, c18_stub_tr_dispatch)]
-fn c18_parse_token_any() {
-    parse_token(false);
+fn c18_parse_witness_varint_surplus() {
+    let blob = [0x04u8, 0x02, 0x00, 0x00];
+    let r = ClientParameters::parse_from_bytes(&blob[..]);
+    kani::cover!(true, "parse returned");
+    assert!(r.is_err(), "a value longer than its varint is a TRANSPORT_PARAMETER_ERROR");
+    core::mem::forget(r);
 }
 
+/// Defect #2. Client's TLS extension = `0c 01 00` (disable_active_migration with a 1-byte value).
 #[kani::proof]
-#[kani::unwind(19)]
+#[kani::unwind(6)]
 #[kani::stub(crate::varint::be_varint, c18_model_be_varint)]
 #[kani::stub(core::fmt::write, c18_stub_fmt_write)]
 #[kani::stub(alloc::fmt::format, c18_stub_fmt_format)]
@@ -482,6 +498,81 @@ fn c18_parse_token_any() {
 #[kani::stub(tracing::callsite::DefaultCallsite::interest, c18_stub_tr_interest)]
 #[kani::stub(tracing::__macro_support::__is_enabled, c18_stub_tr_enabled)]
 #[kani::stub(tracing::Event::dispatch, c18_stub_tr_dispatch)]
-fn c18_parse_token_wf() {
-    parse_token(true);
+fn c18_parse_witness_flag_surplus() {
+    let blob = [0x0cu8, 0x01, 0x00];
+    let r = ClientParameters::parse_from_bytes(&blob[..]);
+    kani::cover!(true, "parse returned");
+    assert!(r.is_err(), "a non-empty flag is a TRANSPORT_PARAMETER_ERROR");
+    core::mem::forget(r);
+}
+
+/// Defect #3. Server's TLS extension = `02 01 00` (stateless_reset_token of 1 byte), parsed by a
+/// client: handle_nom_error's assert "Only incomplete errors should occur" fires.
+#[kani::proof]
+#[kani::unwind(6)]
+#[kani::stub(crate::varint::be_varint, c18_model_be_varint)]
+#[kani::stub(core::fmt::write, c18_stub_fmt_write)]
+#[kani::stub(alloc::fmt::format, c18_stub_fmt_format)]
+#[kani::stub(core::slice::index::slice_index_fail, c18_stub_slice_index_fail)]
+#[kani::stub(tracing::callsite::DefaultCallsite::interest, c18_stub_tr_interest)]
+#[kani::stub(tracing::__macro_support::__is_enabled, c18_stub_tr_enabled)]
+#[kani::stub(tracing::Event::dispatch, c18_stub_tr_dispatch)]
+fn c18_parse_witness_token_short() {
+    let blob = [0x02u8, 0x01, 0x00];
+    let r = ServerParameters::parse_from_bytes(&blob[..]);
+    kani::cover!(true, "parse returned");
+    assert!(r.is_err(), "a short stateless reset token is a TRANSPORT_PARAMETER_ERROR");
+    core::mem::forget(r);
+}
+
+// ---------------------------------------------------------------------------------------------
+// mandatory ids on (nearly) concrete blobs through parse_from_bytes (cheap instances of
+// c18_parse_required_*)
+
+/// An empty TLS extension lacks the mandatory ids for both roles: TRANSPORT_PARAMETER_ERROR.
+#[kani::proof]
+#[kani::unwind(6)]
+#[kani::stub(crate::varint::be_varint, c18_model_be_varint)]
+#[kani::stub(core::fmt::write, c18_stub_fmt_write)]
+#[kani::stub(alloc::fmt::format, c18_stub_fmt_format)]
+#[kani::stub(core::slice::index::slice_index_fail, c18_stub_slice_index_fail)]
+#[kani::stub(tracing::callsite::DefaultCallsite::interest, c18_stub_tr_interest)]
+#[kani::stub(tracing::__macro_support::__is_enabled, c18_stub_tr_enabled)]
+#[kani::stub(tracing::Event::dispatch, c18_stub_tr_dispatch)]
+fn c18_parse_required_empty() {
+    let blob = [0u8; 0];
+    let rc = ClientParameters::parse_from_bytes(&blob[..]);
+    let rs = ServerParameters::parse_from_bytes(&blob[..]);
+    kani::cover!(true, "parse returned");
+    assert!(matches!(&rc, Err(e) if e.kind() == ErrorKind::TransportParameter));
+    assert!(matches!(&rs, Err(e) if e.kind() == ErrorKind::TransportParameter));
+    core::mem::forget(rc);
+    core::mem::forget(rs);
+}
+
+/// `0f 01 c` (initial_source_connection_id = [c], c symbolic) alone: a complete client set
+/// (accepted, cid == [c]) but an incomplete server set (original_destination_connection_id
+/// missing: TRANSPORT_PARAMETER_ERROR).
+#[kani::proof]
+#[kani::unwind(6)]
+#[kani::stub(crate::varint::be_varint, c18_model_be_varint)]
+#[kani::stub(core::fmt::write, c18_stub_fmt_write)]
+#[kani::stub(alloc::fmt::format, c18_stub_fmt_format)]
+#[kani::stub(core::slice::index::slice_index_fail, c18_stub_slice_index_fail)]
+#[kani::stub(tracing::callsite::DefaultCallsite::interest, c18_stub_tr_interest)]
+#[kani::stub(tracing::__macro_support::__is_enabled, c18_stub_tr_enabled)]
+#[kani::stub(tracing::Event::dispatch, c18_stub_tr_dispatch)]
+fn c18_parse_required_iscid_only() {
+    let c: u8 = kani::any();
+    let blob = [0x0fu8, 0x01, c];
+    let rc = ClientParameters::parse_from_bytes(&blob[..]);
+    match &rc {
+        Ok(p) => assert!(is_cid1(p.get::<ConnectionId>(ParameterId::InitialSourceConnectionId), c)),
+        Err(_) => assert!(false, "a client set with initial_source_connection_id is complete"),
+    }
+    core::mem::forget(rc);
+    let rs = ServerParameters::parse_from_bytes(&blob[..]);
+    kani::cover!(true, "parse returned");
+    assert!(matches!(&rs, Err(e) if e.kind() == ErrorKind::TransportParameter), "server set lacks original_destination_connection_id");
+    core::mem::forget(rs);
 }
